@@ -2026,6 +2026,14 @@ def forget_map_operation(c, a, st, v):
         import contracts_lax
         if is_var:
             not_all_equal = any(isinstance(k, tuple) and k and k[0] == "all" and not truth for (k, truth) in st.unk)
+            # ... or, written out for short lists, one failed comparison between two incident labels
+            leaves = {s_, t_}
+
+            def incident(x):
+                return isinstance(x, tuple) and len(x) >= 2 and x[0] in ("get", "elem") and x[1] in leaves
+            not_all_equal = not_all_equal or any(
+                isinstance(k, tuple) and len(k) == 3 and k[0] == "eq" and not truth and incident(k[1]) and incident(k[2])
+                for (k, truth) in st.unk)
             c.ob("ENS", "forget keeps a variable-labelled hyperedge only if its incident labels are not all equal",
                  "kept ∧ a == var ⇒ the path established that some label differs", not_all_equal, st)
         c.ob("ENS", "forget keeps the operation: the hyperedge carries the operation's own label",
